@@ -8,9 +8,15 @@ cd "$VERIF_DIR/harness" || exit 2
 cp /repo/go.sum go.sum || exit 2
 BIN=$(mktemp -d /tmp/vcheck-bin.XXXXXX) || exit 2
 trap 'rm -rf "$BIN"' EXIT INT TERM
-if ! go build -tags verif -o "$BIN/vcheck" ./cmd/vcheck 1>&2; then
-  echo "harness build failed (does /repo still compile with -tags verif?)" 1>&2
-  exit 2
+if ! go build -tags verif -o "$BIN/vcheck" ./cmd/vcheck 2>"$BIN/build.err"; then
+  # C18 drives memory.Type's exported methods directly; if their signatures changed, the other checks still run
+  if [ "$1" != "C18" ] && go build -tags "verif noc18" -o "$BIN/vcheck" ./cmd/vcheck 2>/dev/null; then
+    echo "note: built without C18 (memory API differs): $(head -3 "$BIN/build.err" | tr '\n' ' ')" 1>&2
+  else
+    cat "$BIN/build.err" 1>&2
+    echo "harness build failed (does /repo still compile with -tags verif?)" 1>&2
+    exit 2
+  fi
 fi
 if [ "$1" = "replay" ]; then
   "$BIN/vcheck" replay "$2"
